@@ -26,7 +26,7 @@ Alphabet == IF ALPHA = "focus" THEN {27, 91, 79, 97, 73} ELSE {27, 91, 60, 59, 7
 L == [keys |-> { [seq |-> <<27, 91, 79, 97>>, key |-> 1, mod |-> 0],      \* Ctrl-Up (rxvt)
                  [seq |-> <<27, 79, 97>>, key |-> 2, mod |-> 0],          \* SS3 a
                  [seq |-> <<27, 91, 97>>, key |-> 3, mod |-> 0] },        \* CSI a
-      mouse |-> TRUE, clip |-> FALSE, ps |-> -1, pe |-> -2, guard |-> FocusGuard, strict |-> SgrStrict]
+      mouse |-> TRUE, clip |-> FALSE, ps |-> -1, pe |-> -2, guard |-> FocusGuard, strict |-> SgrStrict, utf8 |-> FALSE]
 
 \* partitions of s: subsets of the cut positions 1..Len(s)-1
 RECURSIVE Cut(_, _, _)
